@@ -9,6 +9,7 @@ known-findings file, writes evidence/<id>.json, and exits 0 / 1 (VIOLATION) / 2
 import glob
 import json
 import os
+import re
 import shutil
 import subprocess
 import sys
@@ -36,6 +37,9 @@ def ensure_engine():
             sys.exit(2)
 
 
+EXCLUDED = []   # notes about harness files dropped because they no longer compile (see run())
+
+
 class Unit:
     """One package under test with its harness overlay."""
 
@@ -52,6 +56,30 @@ class Unit:
         for f in ("go.mod", "go.sum"):
             shutil.copy(os.path.join(self.mod, f), self.modfile)
         self.pkgdir = os.path.normpath(os.path.join(self.mod, self.pkg))
+        self.excluded = []
+        self.build_overlay()
+
+    def exclude(self, files):
+        """Drop harness files that no longer compile against the current tree (they belong to other
+        harnesses than the requested ones); the engine and the native replay then use a filtered copy."""
+        self.excluded += files
+        nd = os.path.join(self.modfile, "hfilt_%s_%d" % (self.pkg.replace("/", "_"), len(self.excluded)))
+        os.makedirs(nd, exist_ok=True)
+        for f in os.listdir(self.hdir):
+            if f not in files and os.path.isfile(os.path.join(self.hdir, f)):
+                shutil.copy(os.path.join(self.hdir, f), nd)
+        self.hdir = nd
+        self.build_overlay()
+
+    def defining_files(self, harnesses):
+        out = set()
+        for f in glob.glob(os.path.join(self.hdir, "*.go")):
+            src = open(f).read()
+            if any(re.search(r"^func %s\(" % re.escape(h), src, re.M) for h in harnesses):
+                out.add(os.path.basename(f))
+        return out
+
+    def build_overlay(self):
         ov = {}
         for f in glob.glob(os.path.join(self.hdir, "*.go")):
             ov[os.path.join(self.pkgdir, os.path.basename(f))] = f
@@ -215,6 +243,18 @@ def run(pid, tier, spec, scratch, seed, t0):
             extra += ["-hang-violation"]
         outj = os.path.join(scratch, "rep_%d.json" % len(reports))
         rc, out = u.gosx(hs, solver, workers, extra, outj, spec.get("timeout_" + tier, 3600), env=grp.get("env"))
+        for _ in range(3):
+            # a harness file of ANOTHER harness that no longer compiles against the tree (a function it
+            # names was renamed or removed) must not take this check down: drop it and retry.
+            if os.path.exists(outj) or "package load errors" not in out:
+                break
+            bad = set(re.findall(r"(zz_verif_\w+\.go):\d+", out)) & set(os.listdir(u.hdir))
+            if not bad or bad & u.defining_files(hs):
+                break
+            u.exclude(sorted(bad))
+            EXCLUDED.append("harness files excluded (do not compile against the current tree, not needed by %s): %s" % (hs, sorted(bad)))
+            print("note:", EXCLUDED[-1])
+            rc, out = u.gosx(hs, solver, workers, extra, outj, spec.get("timeout_" + tier, 3600), env=grp.get("env"))
         if not os.path.exists(outj):
             inconclusive.append("engine produced no report for %s: %s" % (hs, out[-1500:]))
             continue
@@ -411,6 +451,7 @@ def write_evidence(pid, tier, seed, spec, reports, violations, known_hits, uncon
             "known_findings_hit": [{"id": k["id"], "harness": h, "label": l} for k, h, l in known_hits],
             "unconfirmed_counterexamples": unconfirmed,
             "inconclusive": inconclusive,
+            "harness_files_excluded": EXCLUDED,
             "incomplete_harnesses": [{"harness": h, "reasons": w} for h, w in incomplete],
         },
         "assumptions": spec.get("assumptions", []),
